@@ -14,7 +14,8 @@ RULE = ('config with side-effecting producers (!call:vfrec.call_i, !eval note(i)
         '!xref to one producer (also into containers), yaml aliases placing the producer node itself at further places (top level, inside a list, '
         'inside a mapping), producers used as arguments of other calls, !eval code naming top-level keys; a random '
         'permutation of the key order of every mapping; 0-2 later stages overwriting / deleting / replacing the container of a subset or giving a call '
-        'with a !force-pinned dynamic argument another target; optionally one EvalContext shared by all builds; '
+        'with a !force-pinned dynamic argument another target; optionally a !weak first document with later regular stages merging into a container '
+        'and !weak stages replacing whatever is still weak; optionally one EvalContext shared by all builds; '
         'non-trivial = a producer with >=2 consumers of >=2 kinds, or a consumer written before its target, or an overwritten producer; '
         'distinct = hash of the case')
 BUDGET = {'quick': (4, 500), 'thorough': (16, 8000)}
@@ -97,12 +98,25 @@ def _case(draw):
             referenced.update(p[0] for p in spec[2])
         elif spec[0] == 'ceval':
             referenced.add(spec[2][0])
-    for _ in range(draw(st.sampled_from([0, 0, 1, 1, 2]))):
+    weak_base = draw(st.integers(0, 3)) == 0       # the first document is '--- !weak': later stages decide by priority which nodes still exist
+    acted = set()
+    for _ in range(draw(st.sampled_from([0, 0, 1, 1, 2, 3] if weak_base else [0, 0, 1, 1, 2]))):
         acts = []
         for k in draw(st.lists(st.sampled_from(keys), max_size=2, unique=True)):
             a = draw(st.sampled_from(['scalar', 'scalar', 'delete', 'list', 'delmap']))
+            if weak_base and not k.startswith('pc') and draw(st.booleans()):
+                # 'touch': a regular mapping merged into the (weak) box makes it a regular entry; 'weakscalar': a !weak scalar
+                # replaces what is still weak (latest among equals) and loses against anything regular
+                a = 'touch' if k == 'box' and k not in acted and draw(st.booleans()) else 'weakscalar'
             if k.startswith('pc'):
                 a = draw(st.sampled_from(['retarget', 'retarget', 'scalar', 'delete']))
+            if a in ('touch', 'weakscalar'):
+                if k in referenced and k in ('box', 'lst'):
+                    continue
+                acts.append([k, a])
+                acted.add(k)
+                continue
+            acted.add(k)
             if a == 'delete' and k in referenced:
                 a = 'scalar'
             if k not in ('box', 'lst') and a in ('list', 'delmap'):
@@ -117,7 +131,13 @@ def _case(draw):
                 a = 'list2'
             acts.append([k, a])
         stages.append(acts)
-    return {'top': top, 'stages': stages, 'perm': perm_seed, 'shared_ctx': draw(st.booleans())}
+    for ck in ('box', 'lst'):
+        if weak_base and ck in keys and ck not in referenced and draw(st.booleans()):
+            # the history the priority of a container is decided by: weak, then merged with something regular, then a weak replacement
+            touch = [ck, 'touch'] if ck == 'box' else [ck, 'touchlist']
+            stages = [[touch], [[ck, 'weakscalar']]] + [[a for a in acts if a[0] != ck] for acts in stages[:1]]
+            break
+    return {'top': top, 'stages': stages, 'perm': perm_seed, 'shared_ctx': draw(st.booleans()), 'weak_base': weak_base}
 
 
 def strategy():
@@ -235,6 +255,12 @@ def stage_doc(acts):
             items.append([k, tdoc.sq([], flow=True)])
         elif a == 'retarget':
             items.append([k, tdoc.mp([('z', tdoc.sc(2))], flow=True, tag=f'!call:vfrec.call_{900 + int(k[2:])}')])
+        elif a == 'touch':
+            items.append([k, tdoc.mp([('touched', tdoc.sc(1))], flow=True)])
+        elif a == 'touchlist':
+            items.append([k, tdoc.mp([(-1, tdoc.sc(6))], flow=True)])        # a regular mapping merged into the (weak) list: its last element
+        elif a == 'weakscalar':
+            items.append([k, tdoc.sc(78, prio=-1)])
         elif a == 'list2':
             items.append([k, tdoc.sq([tdoc.sc(1), tdoc.sc(2), tdoc.sc(3), tdoc.sc(4), tdoc.sc(5)], flow=True)])
         else:
@@ -244,9 +270,17 @@ def stage_doc(acts):
 
 def survivors(case):
     overwritten = set()
+    prio = {k: (-1 if case.get('weak_base') else 0) for k, _ in case['top']}
     for acts in case['stages']:
         for k, a in acts:
-            overwritten.add(k)
+            if a in ('touch', 'touchlist'):
+                prio[k] = 0                 # merged with a regular mapping: a regular entry from now on, its content is all still there
+            elif a == 'weakscalar':
+                if prio[k] <= -1:
+                    overwritten.add(k)      # latest among equals
+            else:
+                overwritten.add(k)
+                prio[k] = 0
     out = set()
 
     def rec(spec, topkey):
@@ -257,7 +291,7 @@ def survivors(case):
             if topkey not in overwritten:
                 out.update([spec[1], spec[2]])
             else:
-                last = [a for acts in case['stages'] for k, a in acts if k == topkey][-1]
+                last = [a for acts in case['stages'] for k, a in acts if k == topkey and a not in ('touch', 'touchlist', 'weakscalar')][-1]
                 if last == 'retarget':
                     out.add(900 + int(topkey[2:]))
         elif spec[0] in ('prod', 'ccall', 'ceval'):
@@ -292,6 +326,8 @@ def _run(texts, ctx=None):
 
 def run_case(case):
     base = tdoc.mp([(k, node_of(spec)) for k, spec in case['top']])
+    if case.get('weak_base'):
+        base['prio'] = -1
     later = [stage_doc(a) for a in case['stages'] if a]
     S, overwritten = survivors(case)
     labels = {'stages=%d' % (1 + len(later))}
@@ -311,6 +347,11 @@ def run_case(case):
             labels.add('consumer=' + c)
     if overwritten:
         labels.add('overwritten')
+    if case.get('weak_base'):
+        labels.add('weak-first-document')
+        if any(a == 'weakscalar' for acts in case['stages'] for _, a in acts):
+            labels.add('weak-replacement-stage')
+            nontrivial = True
     results = []
     ctx = None
     if case.get('shared_ctx'):
